@@ -10,6 +10,7 @@ mod searchprops;
 #[allow(dead_code)]
 mod jsonproto;
 mod c15;
+mod c07;
 
 use ctx::{Ctx, Tier};
 
@@ -66,6 +67,7 @@ fn main() {
         "C05" => searchprops::run(&mut ctx, searchprops::Prop::C05),
         "C10" => searchprops::run(&mut ctx, searchprops::Prop::C10),
         "C15" => c15::run(&mut ctx),
+        "C07" => c07::run(&mut ctx),
         _ => {
             eprintln!("unknown property {}", prop);
             std::process::exit(2);
